@@ -133,3 +133,35 @@ Proof. vm_compute. reflexivity. Qed.
 
 Print Assumptions C05_lazy_enc_eq_eager.
 Print Assumptions C05_lazy_dec_eq_eager_partial.
+
+(* ---------------------------------------------------------------- decoder side, FULL
+   (Proofs/FloatQ_skip.v discharges [fq_skip_ok] for every format with 3 <= prec, 66 <= emax;
+   f32 = (24,128) and f64 = (53,1024), the only instantiations in the Rust crate, qualify) *)
+From CV Require Import Proofs.FloatQ_skip.
+
+Theorem C05_lazy_dec_eq_eager :
+  forall prec emax (Hprec : Prec_gt_0 prec) (Hmax : Prec_lt_emax prec emax),
+  fq_format_ok prec emax = true ->
+  forall PB P (ws : list (binary_float prec emax)) (norm : option (binary_float prec emax)),
+  0 < P -> P <= PB -> PB <= fq_USZ ->
+  2 <= N.of_nat (length ws) -> N.of_nat (length ws) + 1 < 2 ^ P ->
+  fq_all_finite_nonneg prec emax ws = true ->
+  fq_norm_ok prec emax (match norm with Some x => x | None => fq_sum prec emax Hprec Hmax ws end) = true ->
+  exists t m,
+    fq_eager_table prec emax Hprec Hmax PB P ws norm = FqOk t
+    /\ fq_lazy_new prec emax Hprec Hmax PB P ws norm = FqOk m
+    /\ forall q, q < 2 ^ P -> exists s c p,
+         fq_lazy_dec prec emax Hprec Hmax PB P m q = FqOk (s, c, p)
+         /\ tbl_dec t q = (Z.of_N s, c, p).
+Proof.
+  intros prec emax Hprec Hmax Hfmt PB P ws norm HP HPB HU H2 Hn Hall Hnorm.
+  destruct (fq_format_ok_spec prec emax Hfmt) as [Hp3 He66].
+  destruct (lazy_dec_eq_eager_full prec emax Hprec Hmax Hp3 He66 PB P HP HPB HU ws norm H2 Hn Hall Hnorm)
+    as (t & m & Ht & Hm & _ & _ & Hdec).
+  exists t, m. auto.
+Qed.
+
+Example C05_format_f32 : fq_format_ok 24 128 = true := eq_refl.
+Example C05_format_f64 : fq_format_ok 53 1024 = true := eq_refl.
+
+Print Assumptions C05_lazy_dec_eq_eager.
